@@ -1247,6 +1247,14 @@ pub fn corpus_entry(seed: u64) -> Vec<u8> {
     let mut big = false;
     let mut a = 8u8;
     let map = seed_sections(&mut ch, &mut big, &mut a);
+    encode_sections(&map, big, a)
+}
+
+/// The `sections` fuzz target's input encoding.
+pub fn encode_sections(map: &Map, big: bool, a: u8) -> Vec<u8> {
+    const NAMES: [&str; 23] = [
+        ".debug_info", ".debug_abbrev", ".debug_str", ".debug_line", ".debug_line_str", ".debug_ranges", ".debug_rnglists", ".debug_loc", ".debug_loclists", ".debug_addr", ".debug_str_offsets", ".debug_aranges", ".debug_types", ".debug_macinfo", ".debug_macro", ".debug_pubnames", ".debug_pubtypes", ".debug_names", ".debug_cu_index", ".debug_tu_index", ".debug_frame", ".eh_frame", ".eh_frame_hdr",
+    ];
     let mut out = vec![(big as u8) | match a {
         8 => 0,
         4 => 2,
@@ -1254,8 +1262,9 @@ pub fn corpus_entry(seed: u64) -> Vec<u8> {
         _ => 6,
     }];
     for (name, data) in map {
-        let Some(idx) = NAMES.iter().position(|n| *n == name) else { continue };
-        for chunk in data.chunks(0xffff) {
+        let plain = name.trim_end_matches(".dwo");
+        let Some(idx) = NAMES.iter().position(|n| *n == plain) else { continue };
+        for chunk in data.chunks(0xffff).take(1) {
             out.push(idx as u8);
             out.extend_from_slice(&(chunk.len() as u16).to_le_bytes());
             out.extend_from_slice(chunk);
